@@ -4,6 +4,8 @@ import itertools, json
 from common import *
 from engine import *
 import impl_graph
+import impl_collection as IC
+import gens as G
 
 PID = "C14"
 THEOREMS = ["PauLie.C14.C14_collection", "PauLie.C14.C14_commutants", "PauLie.C14.C14_commutants_empty", "PauLie.C14.C14_graph_edges",
@@ -108,6 +110,53 @@ def oracle(line, out):
         return None
     return None if out == exp else f"{line[:200]}: implementation [{out[:200]}] definition [{exp[:200]}]"
 
+# ---- graph queries after edit histories (a cached or stale graph must not survive an edit)
+GQ = {"q.graph": "graph", "q.sub": "subgraphs", "q.compsA": "components", "q.commutants": "commutants", "q.cgraph": "cgraph", "q.pairs": "pairs"}
+
+def oracle_hist(line, out):
+    """every graph answer inside a history is judged by the double-loop definition on the strings the collection holds at that moment"""
+    init, ops = IC.ops_of(line)
+    state = pad(init)
+    if out.startswith("!"):
+        return None
+    for t, o in zip(ops, out.split("\t")):
+        if t[0].startswith("q."):
+            arg = ",".join(x or "-" for x in state) or "-"
+            if t[0] == "q.graph":
+                why = oracle(f"graph {arg} -", o.replace("#", " "))
+            elif t[0] == "q.sub":
+                why = oracle(f"subgraphs {arg}", o)
+            elif t[0] == "q.compsA":
+                why = oracle(f"components anticommutator {arg}", o) if state else None
+            elif t[0] == "q.commutants":
+                why = oracle(f"commutants {arg}", o)
+            elif t[0] == "q.cgraph":
+                why = oracle(f"cgraph {arg}", o.replace("#", " ")) if state else None
+            elif t[0] == "q.pairs":
+                why = oracle(f"pairs {arg}", o.replace("#", " "))
+            else:
+                why = None
+            if why:
+                return f"after the edits {';'.join(':'.join(x) for x in ops[:ops.index(t)] if not x[0].startswith('q.'))} (collection now {state}): " + why
+        else:
+            state = impl_graph.strs(o.split("=", 1)[1])
+    return None
+
+def gen_graph_history(rng, maxn, length):
+    import props.c10 as C10
+    l = C10.history(rng, maxn, 6, length, space_ok=False)
+    init, ops = IC.ops_of(l)
+    out = []
+    n_small = maxn <= 3
+    for t in ops:
+        if t[0].startswith("q."):
+            qs = ["q.graph", "q.graph", "q.sub", "q.sub", "q.compsA", "q.pairs", "q.pairs"] + (["q.commutants", "q.cgraph"] if n_small else ["q.commutants"])
+            out.append(rng.choice(qs))
+        else:
+            out.append(":".join(t))
+    out.append("q.graph"); out.append("q.sub"); out.append("q.pairs")
+    return G.line_of("hist", init, ";".join(out))
+
 def rs(rng, n, wI=1):
     return "".join(rng.choice("I" * wI + "XYZ") for _ in range(n))
 
@@ -146,6 +195,14 @@ def build_streams(rng, tier):
     for _ in range(12 if th else 2):   # 4^n vertices enumerated at n = 4 (thorough: 5)
         c = gen_coll(rng, 5 if th else 4, 4)
         S.append(f"commutants {c}"); S.append(f"cgraph {c}")
+    for n in ((4, 5, 5, 5, 5) if not th else (4, 4, 5, 5, 5, 5, 5, 5, 6, 6)):   # commutants with EVERY qubit position exercised, n = 5 included
+        for _ in range(2):
+            gs = [rs(rng, n, rng.choice([1, 3])) for _ in range(rng.randint(1, 4))]
+            gs.append(rng.choice("XYZ") + "I" * (n - 1))        # a member acting on the first qubit only
+            rng.shuffle(gs)
+            S.append(f"commutants {','.join(gs)}")
+    S.append("cgraph " + ",".join(rs(rng, 5, 2) for _ in range(2))) if th else None
+    H = [gen_graph_history(rng, rng.choice([2, 3, 3, 4, 5]), rng.randint(3, 14)) for _ in range(1500 if th else 350)]
     # exhaustive tiny domain: all collections of <= 2 distinct strings on 1 qubit, <= 2 on 2 qubits (sampled)
     tiny = []
     for n in (1, 2):
@@ -163,11 +220,14 @@ def build_streams(rng, tier):
         Stream("tiny-exhaustive", tiny, h, oracle, tag=tag),
         Stream("anticommutation-graphs", L, h, oracle, tag=tag, nontrivial=lambda l, o: "E=-" not in o and o != "-"),
         Stream("commutants-and-commutator-graphs", S, h, oracle, tag=tag, nontrivial=lambda l, o: "E=-" not in o),
+        Stream("graph-queries-after-edit-histories", H, IC.handle, oracle_hist, tag=lambda l, o: "hist" + (":err" if "!" in o else ""),
+               nontrivial=lambda l, o: any(x.split(":")[0] in ("rep", "con", "rem", "del", "exp", "sort") for x in l.split(" ")[2].split(";"))),
     ]
 
 RULE = ("random collections on 1..6 qubits (0..8 members; duplicates, mixed lengths, identity, products of members), every "
         "graph query; commutants / commutator graph / its components on n<=3 (quick; 4^n vertices enumerated, a few at n=4; "
-        "thorough n<=5); all collections of <=2 strings on 1 qubit and (sampled in quick) 2 qubits. Oracle: direct double loops "
+        "thorough n<=5), commutants also at n=5 (thorough 6) with a member on the first qubit; the same graph queries after random edit "
+        "histories of the collection (append/insert/remove/del/replace/contract/expand/sort/copy), judged on the strings held at that moment; all collections of <=2 strings on 1 qubit and (sampled in quick) 2 qubits. Oracle: direct double loops "
         "over letter-wise (anti)commutation. non-trivial: graph has an edge")
 
 def main(tier):
